@@ -62,3 +62,72 @@ Example c09_nonvacuous :
 Proof.
   repeat constructor; cbn; try (intros [H|[]]; discriminate); try (intros []); try lia.
 Qed.
+
+(* ---- THE STANDARD LIBRARY satisfies both hypotheses on functions (every regex oracle rxo, every tree t): a successful
+   call returns the graph it was given or — `node` only — that graph with one fresh node appended
+   (Proofs/StdlibHyps.v).  The two run theorems, instantiated: no hypothesis on functions is left. *)
+From TSG Require Import Model.Stdlib Proofs.StdlibHyps.
+
+Theorem stdlib_extends : forall rxo t, call_extends (stdlib_call rxo t).
+Proof. exact stdlib_call_extends. Qed.
+Theorem stdlib_extends_sorted : forall rxo t, call_extends_sorted (stdlib_call rxo t).
+Proof. exact stdlib_call_extends_sorted. Qed.
+(* ... in detail: the graph a stdlib call returns *)
+Theorem stdlib_call_result_graph : forall rxo t f g args v g',
+  stdlib_call rxo t f g args = Ok (v, g') -> g' = g \/ g' = g ++ [new_gnode].
+Proof. exact stdlib_call_graph. Qed.
+
+Theorem run_extends_strict_stdlib : forall {rx} rxo t fl cfg supplied budget (regexes : list rx) find fuel matches g0 s p,
+  graph_wf g0 ->
+  run_strict t fl cfg supplied budget regexes find (stdlib_call rxo t) fuel matches g0 = Ok (s, p) ->
+  graph_wf (s_graph s) /\ graph_ext g0 (s_graph s).
+Proof.
+  intros rx rxo t fl cfg supplied budget regexes find fuel matches g0 s p.
+  exact (@run_extends_strict rx t fl cfg supplied budget regexes find (stdlib_call rxo t) fuel matches g0 s p (stdlib_call_extends rxo t)).
+Qed.
+
+Theorem run_extends_lazy_stdlib : forall {rx} rxo t fl cfg supplied budget (regexes : list rx) find fuel matches g0 s p,
+  graph_sorted g0 ->
+  run_lazy t fl cfg supplied budget regexes find (stdlib_call rxo t) fuel matches g0 = Ok (s, p) ->
+  graph_sorted (l_graph s) /\ graph_ext g0 (l_graph s).
+Proof.
+  intros rx rxo t fl cfg supplied budget regexes find fuel matches g0 s p.
+  exact (@run_extends_lazy rx t fl cfg supplied budget regexes find (stdlib_call rxo t) fuel matches g0 s p (stdlib_call_extends_sorted rxo t)).
+Qed.
+
+
+(* ... the instantiated theorems apply to a run that calls `node`, the one library function that changes the graph:
+       (module) @m { let x = (node)  attr (x) k = (plus 1 2)  edge x -> x }
+   started on the pre-populated graph of c09_nonvacuous *)
+Definition c09_tree : tree := {| t_src := []; t_nodes := [] |}.
+Definition c09_file : file :=
+  {| f_globals := []; f_inherited := []; f_shorthands := [];
+     f_stanzas := [{|
+       st_stmts := [ SLet (VarU [120] (1, 6)) (ECall Lit.node []) (1, 2);
+                     SAttrNode (EUnscoped [120] (2, 8)) [Attr [107] (ECall Lit.plus [EInt 1; EInt 2])] (2, 2);
+                     SEdge (EUnscoped [120] (3, 7)) (EUnscoped [120] (3, 12)) (3, 2) ];
+       st_full_stanza_idx := 0; st_full_file_idx := 0; st_start := (0, 0) |}] |}.
+Definition c09_g0 : graph := [ {| g_attrs := [([107], VInt 1)]; g_edges := [(0, [([107], VInt 2)]); (1, [])] |}; new_gnode ].
+Definition c09_oracle : regex_oracle := fun _ _ _ => None.
+Local Notation c09_strict :=
+  (run_strict c09_tree c09_file config0 [[]] None (@nil unit) (fun _ _ => None) (stdlib_call c09_oracle c09_tree) 50 [[[(0, [0])]]] c09_g0).
+Local Notation c09_lazy :=
+  (run_lazy c09_tree c09_file config0 [[]] None (@nil unit) (fun _ _ => None) (stdlib_call c09_oracle c09_tree) 50 [(0, [(0, [0])])] c09_g0).
+Example c09_stdlib_nonvacuous :
+  (exists s p, c09_strict = Ok (s, p) /\
+     s_graph s = c09_g0 ++ [ {| g_attrs := [([107], VInt 3)]; g_edges := [(2, [])] |} ] /\
+     graph_wf (s_graph s) /\ graph_ext c09_g0 (s_graph s)) /\
+  (exists s p, c09_lazy = Ok (s, p) /\
+     l_graph s = c09_g0 ++ [ {| g_attrs := [([107], VInt 3)]; g_edges := [(2, [])] |} ] /\
+     graph_sorted (l_graph s) /\ graph_ext c09_g0 (l_graph s)).
+Proof.
+  assert (Hs : exists s p, c09_strict = Ok (s, p)) by (eexists; eexists; vm_compute; reflexivity).
+  assert (Hl : exists s p, c09_lazy = Ok (s, p)) by (eexists; eexists; vm_compute; reflexivity).
+  split.
+  - destruct Hs as (s & p & E). exists s, p. split; [exact E|]. split.
+    + assert (X : c09_strict = Ok (s, p)) by exact E. vm_compute in X. inversion X. reflexivity.
+    + exact (run_extends_strict_stdlib c09_oracle c09_tree c09_file config0 [[]] None (@nil unit) (fun _ _ => None) 50%nat [[[(0, [0])]]] c09_g0 s p c09_nonvacuous E).
+  - destruct Hl as (s & p & E). exists s, p. split; [exact E|]. split.
+    + assert (X : c09_lazy = Ok (s, p)) by exact E. vm_compute in X. inversion X. reflexivity.
+    + exact (run_extends_lazy_stdlib c09_oracle c09_tree c09_file config0 [[]] None (@nil unit) (fun _ _ => None) 50%nat [(0, [(0, [0])])] c09_g0 s p (graph_wf_sorted _ c09_nonvacuous) E).
+Qed.
